@@ -1480,92 +1480,149 @@ func ruleIndexLE(prog *Program, rep *Report, rels ...string) {
 	runSynRule(prog, rep, "B-idxle", rels, matchIndexLE, fixtureIndexLE, 1, 20)
 }
 
-// ---------------------------------------------------------------- K-unsafefile
+// ---------------------------------------------------------------- K-unsafekind
 
-// ruleUnsafeFile: the field accessors live in one file per Go type (fint8.go,
-// fuint16.go, ...); every load through unsafe.Pointer in such a file must use the
-// file's type. A load through another type reads the right bytes as the wrong
-// number (uint16 50051 as int16 -15485).
-func ruleUnsafeFile(prog *Program, rep *Report) {
-	rep.Rules = append(rep.Rules, "K-unsafefile: in each per-type accessor file (f<type>.go of oj, sen, alt) every load *(*T)(unsafe.Pointer(..)) uses one and the same T: the address fast path reads the field as the type the file is for")
-	files := 0
+// ruleUnsafeKind: the field accessors are bound to a reflect.Kind where the field
+// plan is built (`case reflect.Uint16: fi.Append = uint16AppendFuncs[fx]`, the
+// array listing the accessor functions). Every load through unsafe.Pointer in a
+// function bound to kind K must be a load of the Go type of that kind: a load
+// through another type reads the bytes of the field as the wrong number (uint16
+// 50051 as int16 -15485). The rule follows the binding, not file or function names.
+func ruleUnsafeKind(prog *Program, rep *Report) {
+	rep.Rules = append(rep.Rules, "K-unsafekind: for every accessor function listed in an array that the field-plan builder selects under `case reflect.<Kind>` (oj, sen, alt), each load *(*T)(unsafe.Pointer(..)) in the function has T of exactly that kind")
+	want := map[string]types.BasicKind{"Bool": types.Bool, "Int": types.Int, "Int8": types.Int8, "Int16": types.Int16, "Int32": types.Int32, "Int64": types.Int64,
+		"Uint": types.Uint, "Uint8": types.Uint8, "Uint16": types.Uint16, "Uint32": types.Uint32, "Uint64": types.Uint64, "Float32": types.Float32, "Float64": types.Float64, "String": types.String}
+	funcs := 0
 	for _, rel := range []string{"oj", "sen", "alt"} {
 		pk := prog.Pkg(rel)
 		if pk == nil {
+			rep.Errorf("K-unsafekind: package %s not loaded", rel)
 			continue
 		}
+		info := pk.TypesInfo
+		// package-level arrays of functions
+		arrays := map[types.Object][]*types.Func{}
 		for _, f := range pk.Syntax {
-			name := prog.Fset.Position(f.Pos()).Filename
-			base := name[strings.LastIndex(name, "/")+1:]
-			if !strings.HasPrefix(base, "f") || !strings.HasSuffix(base, ".go") || base == "finfo.go" || strings.HasSuffix(base, "_test.go") {
-				continue
-			}
-			typesSeen := map[string]token.Pos{}
-			counts := map[string]int{}
-			ast.Inspect(f, func(n ast.Node) bool {
-				st, ok := n.(*ast.StarExpr)
-				if !ok {
-					return true
+			for _, d := range f.Decls {
+				gd, ok := d.(*ast.GenDecl)
+				if !ok || gd.Tok != token.VAR {
+					continue
 				}
-				c, ok := ast.Unparen(st.X).(*ast.CallExpr)
-				if !ok || len(c.Args) != 1 {
-					return true
-				}
-				pt, ok := ast.Unparen(c.Fun).(*ast.StarExpr)
-				if !ok {
-					return true
-				}
-				inner, ok := ast.Unparen(c.Args[0]).(*ast.CallExpr)
-				if !ok {
-					return true
-				}
-				if types.ExprString(inner.Fun) != "unsafe.Pointer" {
-					return true
-				}
-				t := types.ExprString(pt.X)
-				if _, ok := typesSeen[t]; !ok {
-					typesSeen[t] = st.Pos()
-				}
-				counts[t]++
-				return true
-			})
-			if len(typesSeen) == 0 {
-				continue
-			}
-			files++
-			key := rel + "/" + base
-			if len(typesSeen) == 1 {
-				for t := range typesSeen {
-					rep.Discharge("K-unsafefile", key, prog.Pos(f.Pos()), "all unsafe loads are *(*"+t+")")
-				}
-				continue
-			}
-			var ts []string
-			for t := range typesSeen {
-				ts = append(ts, t)
-			}
-			sort.Strings(ts)
-			// the file's type: its name, else the most frequent load
-			expected := strings.TrimSuffix(strings.TrimPrefix(base, "f"), ".go")
-			if _, ok := typesSeen[expected]; !ok {
-				best := ""
-				for _, t := range ts {
-					if counts[t] > counts[best] {
-						best = t
+				for _, sp := range gd.Specs {
+					vs := sp.(*ast.ValueSpec)
+					for vi, nm := range vs.Names {
+						if vi >= len(vs.Values) {
+							continue
+						}
+						cl, ok := vs.Values[vi].(*ast.CompositeLit)
+						if !ok {
+							continue
+						}
+						var fns []*types.Func
+						for _, el := range cl.Elts {
+							if kv, ok := el.(*ast.KeyValueExpr); ok {
+								el = kv.Value
+							}
+							if id, ok := el.(*ast.Ident); ok {
+								if fn, ok := info.Uses[id].(*types.Func); ok {
+									fns = append(fns, fn)
+								}
+							}
+						}
+						if len(fns) > 0 {
+							arrays[info.Defs[nm]] = fns
+						}
 					}
 				}
-				expected = best
 			}
-			for _, t := range ts {
-				if t != expected {
-					rep.Violate(Finding{Rule: "K-unsafefile", Key: key + ":" + t, Pos: prog.Pos(typesSeen[t]), Msg: fmt.Sprintf("%s loads a field through *(*%s)(unsafe.Pointer(..)) while the file is for another type (loads seen: %s): the bytes of the field are read as the wrong kind of number", key, t, strings.Join(ts, ", "))})
+		}
+		// bindings: case reflect.K: ... = ARR[..]
+		bound := map[*types.Func]string{}
+		for _, f := range pk.Syntax {
+			ast.Inspect(f, func(n ast.Node) bool {
+				cc, ok := n.(*ast.CaseClause)
+				if !ok || len(cc.List) != 1 {
+					return true
+				}
+				sel, ok := cc.List[0].(*ast.SelectorExpr)
+				if !ok {
+					return true
+				}
+				if id, ok := sel.X.(*ast.Ident); !ok {
+					return true
+				} else if pn, ok := info.Uses[id].(*types.PkgName); !ok || pn.Imported().Path() != "reflect" {
+					return true
+				}
+				kind := sel.Sel.Name
+				if _, ok := want[kind]; !ok {
+					return true
+				}
+				for _, st := range cc.Body {
+					ast.Inspect(st, func(k ast.Node) bool {
+						ix, ok := k.(*ast.IndexExpr)
+						if !ok {
+							return true
+						}
+						if id, ok := ix.X.(*ast.Ident); ok {
+							for _, fn := range arrays[info.Uses[id]] {
+								bound[fn] = kind
+							}
+						}
+						return true
+					})
+				}
+				return true
+			})
+		}
+		// loads in the bound functions
+		for _, f := range pk.Syntax {
+			for _, d := range f.Decls {
+				fd, ok := d.(*ast.FuncDecl)
+				if !ok || fd.Body == nil {
+					continue
+				}
+				fn, _ := info.Defs[fd.Name].(*types.Func)
+				kind, isBound := bound[fn]
+				if !isBound {
+					continue
+				}
+				funcs++
+				bad := false
+				ast.Inspect(fd.Body, func(n ast.Node) bool {
+					st, ok := n.(*ast.StarExpr)
+					if !ok {
+						return true
+					}
+					c, ok := ast.Unparen(st.X).(*ast.CallExpr)
+					if !ok || len(c.Args) != 1 {
+						return true
+					}
+					pt, ok := ast.Unparen(c.Fun).(*ast.StarExpr)
+					if !ok {
+						return true
+					}
+					inner, ok := ast.Unparen(c.Args[0]).(*ast.CallExpr)
+					if !ok || types.ExprString(inner.Fun) != "unsafe.Pointer" {
+						return true
+					}
+					t := info.TypeOf(pt.X)
+					b, isBasic := t.Underlying().(*types.Basic)
+					if !isBasic || b.Kind() != want[kind] {
+						bad = true
+						rep.Violate(Finding{Rule: "K-unsafekind", Key: fmt.Sprintf("%s.%s:load:%s", rel, fd.Name.Name, types.ExprString(pt.X)), Pos: prog.Pos(st.Pos()),
+							Msg: fmt.Sprintf("%s.%s is the accessor the field plan uses for reflect.%s fields but loads the field through *(*%s)(unsafe.Pointer(..)): the bytes of the field are read as another type", rel, fd.Name.Name, kind, types.ExprString(pt.X))})
+					}
+					return true
+				})
+				if !bad {
+					rep.Discharge("K-unsafekind", rel+"."+fd.Name.Name, prog.Pos(fd.Pos()), "loads are of kind "+kind)
 				}
 			}
 		}
 	}
-	rep.Eval(files)
-	if files < 20 {
-		rep.Errorf("K-unsafefile examined %d accessor files (floor 20): anchors did not resolve", files)
+	rep.Eval(funcs)
+	if funcs < 100 {
+		rep.Errorf("K-unsafekind examined %d bound accessor functions (floor 100): anchors did not resolve", funcs)
 	}
 }
 
